@@ -551,10 +551,17 @@ func (l *Lowerer) store(pl *place, v *Term) {
 	case pMap:
 		dom, val, card := l.mapVars(pl.mtyp)
 		l.safety("nilmap", "write to map", nil, Not(Eq(pl.ref, IntLit(0))))
+		// the stored value is evaluated in the state before the update: m[k] = append(m[k], x) reads the old
+		// entry (absent: the zero value), so it must not see the key as present already
+		if v.Op != "lit" && v.Op != "var" {
+			vt := l.tmp(v.Sort)
+			l.assign(vt, v.Sort, v)
+			v = V(vt, v.Sort)
+		}
 		had := Select(Select(dom, pl.ref), pl.idx)
 		l.assign(card.Name, card.Sort, Store(card, pl.ref, Add(Select(card, pl.ref), Ite(had, IntLit(0), IntLit(1)))))
-		l.assign(dom.Name, dom.Sort, Store(dom, pl.ref, Store(Select(dom, pl.ref), pl.idx, tTrue)))
 		l.assign(val.Name, val.Sort, Store(val, pl.ref, Store(Select(val, pl.ref), pl.idx, v)))
+		l.assign(dom.Name, dom.Sort, Store(dom, pl.ref, Store(Select(dom, pl.ref), pl.idx, tTrue)))
 	case pDeref:
 		hv := l.heapVar("F.$deref."+sortIdent(l.p.sortOf(pl.typ)), l.p.sortOf(pl.typ))
 		l.assign(hv.Name, hv.Sort, Store(hv, pl.ref, v))
